@@ -44,6 +44,7 @@ type EntrySpec struct {
 
 type UnpackCase struct {
 	Reuse   bool        `json:"reuse,omitempty"` // the Packer value has been used on another tree before
+	WarmDir string      `json:"warm_dir,omitempty"` // ... namely this one (outside the arena)
 	Init    *TNode      `json:"init"` // the whole root
 	Dst     string      `json:"dst"`
 	Entries []EntrySpec `json:"entries"`
@@ -168,7 +169,7 @@ func childMain() {
 	// the chroot): what one operation learns must not leak into the next
 	var warm *slug.Packer
 	if req.Op == "unpack" && req.Reuse {
-		warm = warmPacker(req.Allow)
+		warm = warmPacker(req.Allow, req.WarmDir)
 	}
 	enterRoot(&req)
 	resp := &ChildResp{}
@@ -250,7 +251,7 @@ func childMain() {
 
 // warmPacker returns a Packer that has already unpacked a small slug with in-tree links
 // into a scratch directory and packed that directory again.
-func warmPacker(allow []string) *slug.Packer {
+func warmPacker(allow []string, dir string) *slug.Packer {
 	var opts []slug.PackerOption
 	for _, a := range allow {
 		opts = append(opts, slug.AllowSymlinkTarget(a))
@@ -259,7 +260,11 @@ func warmPacker(allow []string) *slug.Packer {
 	if err != nil {
 		childFail("warm packer: " + err.Error())
 	}
-	dir, err := os.MkdirTemp("", "verif-warm-")
+	if dir == "" {
+		dir, err = os.MkdirTemp("", "verif-warm-")
+	} else {
+		err = os.MkdirAll(dir, 0o755)
+	}
 	if err != nil {
 		childFail("warm packer: " + err.Error())
 	}
@@ -285,9 +290,9 @@ func warmPacker(allow []string) *slug.Packer {
 
 // ---------- generators ----------
 
-var hostileNames = []string{"t", "a/b/t", "s/a", "d", "s", "a", "b", "a/x", "a/b/y", "l", "l/x", "l2", "l2/x", "../dst-evil/x", "../victim", "nx/../l/x", "nx/../../victim",
+var hostileNames = []string{"nx/../l2/evil", "/l", "/a/l", "/a/b/l2", "a\\b", "..\\x", "t", "a/b/t", "s/a", "d", "s", "a", "b", "a/x", "a/b/y", "l", "l/x", "l2", "l2/x", "../dst-evil/x", "../victim", "nx/../l/x", "nx/../../victim",
 	"/a", "a/", "./a", "a//x", ".", "", "..", "/", "//", "///", "/.", "a/../b", "a/../../dst-evil/x", "l/../x", "b/", "/l/x", "x"}
-var hostileTargets = []string{"../..", "s/a/..", "a/b/t/..", "../../etc/cfg", "a", "b", ".", "..", "a/..", "../dst-evil", "../victim", "a/../victim", "/w/victim", "/secret", "l", "l2", "a/b", "../dst", "../dst/a", "nx", "./b", "a/../../dst-evil", "../dst-evil/x"}
+var hostileTargets = []string{"l/..", "l2/..", "../w/dst/a", "../../w/dst/a", "../w/dst/../victim", "../..", "s/a/..", "a/b/t/..", "../../etc/cfg", "a", "b", ".", "..", "a/..", "../dst-evil", "../victim", "a/../victim", "/w/victim", "/secret", "l", "l2", "a/b", "../dst", "../dst/a", "nx", "./b", "a/../../dst-evil", "../dst-evil/x"}
 
 func genHostileEntries(rng *Rng) []EntrySpec {
 	if rng.Chance(35) {
@@ -330,6 +335,23 @@ func genHostileTemplate(rng *Rng) []EntrySpec {
 			e.Body = fmt.Sprintf("tb%d", rng.Intn(100))
 		}
 		return e
+	}
+	if rng.Chance(12) {
+		// a link entry whose name starts with a slash: judged where it is created, not at "/"
+		es := []EntrySpec{mk("/"+rng.Pick([]string{"l", "a/l", "a/b/l"}), "2", rng.Pick([]string{"../w/dst/a", "../w/dst/../victim", "../../w/dst/a", "../w/victim"}))}
+		if rng.Chance(40) {
+			es = append(es, mk(strings.TrimPrefix(es[0].Name, "/")+"/x", "0", ""))
+		}
+		return es
+	}
+	if rng.Chance(15) {
+		// two links that are each lexically inside and together lead out of dst, then an entry whose
+		// raw name starts with a component that does not exist and a ".."
+		es := []EntrySpec{mk("l", "2", "."), mk("l2", "2", "l/.."), mk(rng.Pick([]string{"nx/../l2/evil", "nx/../l2/a/evil", "l2/evil"}), "0", "")}
+		if rng.Chance(30) {
+			es = append([]EntrySpec{mk("nx/", "5", "")}, es...)
+		}
+		return es
 	}
 	if rng.Chance(25) {
 		// the same target text at two depths, the deeper (harmless) one first
@@ -382,7 +404,7 @@ func genHostileTemplate(rng *Rng) []EntrySpec {
 	return es
 }
 
-var goodNames = []string{"..data", "...", "..hidden/f", "a", "b", "c.txt", "d", "a/x", "a/y.tf", "a/b", "a/b/z", "d/e", "d/e/f", "sp ace", "-dash", ".hidden", "ünï", "d/l"}
+var goodNames = []string{"b\\c", "a/w\\x", "..data", "...", "..hidden/f", "a", "b", "c.txt", "d", "a/x", "a/y.tf", "a/b", "a/b/z", "d/e", "d/e/f", "sp ace", "-dash", ".hidden", "ünï", "d/l"}
 
 func genGoodEntries(rng *Rng) []EntrySpec {
 	n := 1 + rng.Intn(7)
@@ -735,7 +757,7 @@ func runUnpackCase(c *UnpackCase, work string) (*UnpackObs, []Violation) {
 	obs := &UnpackObs{}
 	obs.Decoded, _ = decodeSlug(slugBytes)
 	obs.Before = snapshot(R)
-	resp := runChild(&ChildReq{Op: "unpack", Root: R, Uid: c.Uid, Dst: c.Dst, Slug: slugBytes, FailAt: c.FailAt, Trunc: c.Trunc, Reuse: c.Reuse}, 20*time.Second)
+	resp := runChild(&ChildReq{Op: "unpack", Root: R, Uid: c.Uid, Dst: c.Dst, Slug: slugBytes, FailAt: c.FailAt, Trunc: c.Trunc, Reuse: c.Reuse, WarmDir: c.WarmDir}, 20*time.Second)
 	obs.After = snapshot(R)
 	obs.Err, obs.Illegal, obs.Panic, obs.Timeout, obs.Crashed = resp.Err, resp.Illegal, resp.Panic, resp.Timeout, resp.Crashed
 	var vs []Violation
@@ -906,8 +928,15 @@ func runUnpackStream(o *Opts) {
 		c := &UnpackCase{Dst: "/w/dst", Hostile: hostile, Format: rng.Pick([]string{"ustar", "pax", "gnu"}), FailAt: -1}
 		c.Init = genInitTree(rng, hostile)
 		c.Reuse = rng.Chance(30)
+		if c.Reuse {
+			c.WarmDir = filepath.Join(work, fmt.Sprintf("warm-%d", i))
+		}
 		if hostile {
 			c.Entries = genHostileEntries(rng)
+			if c.Reuse && rng.Chance(30) {
+				// a link into the tree the Packer value worked on before
+				c.Entries = append(c.Entries, EntrySpec{Name: rng.Pick([]string{"wl", "a/wl"}), Type: "2", Link: c.WarmDir + rng.Pick([]string{"/d/f", "", "/l"}), Mode: 0o777, Mtime: 1000000000})
+			}
 		} else {
 			c.Entries = genGoodEntries(rng)
 		}
